@@ -137,4 +137,120 @@ theorem buildReloaded_inv {E : Type} {g : Graph} (gok : GraphOK g) (a : Args) (c
     Inv g a.par (buildReloaded g a c e n0).1 :=
   phase2_inv gok a c _ _ _ _ n0 n (fresh_inv g a) h
 
+/-! ### The trace of a whole `run::build` -/
+
+def shapeOf (a : Args) : List (Bytes × Nat) := poolShape (initPools a.pools)
+
+theorem fresh_tinv (g : Graph) (a : Args) : TInv g a.par (shapeOf a) (fresh a) :=
+  ⟨rfl, rfl, rfl⟩
+
+/-- Invariant and trace link in whatever state a want phase ends. -/
+def WRInv2 (g : Graph) (par : Nat) (shape : List (Bytes × Nat)) : WR Unit → Prop
+  | .ok _ s => Inv g par s ∧ TInv g par shape s
+  | .err _ s => Inv g par s ∧ TInv g par shape s
+  | .bad _ => True
+
+theorem want_WRInv2 {g : Graph} {par : Nat} {shape : List (Bytes × Nat)} (gok : GraphOK g) (s : S) (f : Nat)
+    (inv : Inv g par s) (ti : TInv g par shape s) : WRInv2 g par shape (want g s f) := by
+  cases h : want g s f with
+  | ok u s' => have r := want_inv gok s s' f inv h; exact ⟨r.inv, r.tinv _ ti⟩
+  | err m s' => have r := want_inv_err gok s s' f m inv h; exact ⟨r.inv, r.tinv _ ti⟩
+  | bad m => trivial
+
+theorem wantAll_inv2 {g : Graph} {par : Nat} {shape : List (Bytes × Nat)} (gok : GraphOK g) (fs : List Nat)
+    (s : S) (inv : Inv g par s) (ti : TInv g par shape s) : WRInv2 g par shape (wantAll g s fs) := by
+  induction fs generalizing s with
+  | nil => exact ⟨inv, ti⟩
+  | cons f fs ih =>
+    unfold wantAll
+    have hw := want_WRInv2 gok s f inv ti
+    split
+    · rename_i s' h; rw [h] at hw; exact ih s' hw.1 hw.2
+    · rename_i r hne
+      cases h : want g s f with
+      | ok u s' => exact absurd h (hne u s')
+      | err m s' => rw [h] at hw; exact hw
+      | bad m => trivial
+
+theorem wantTargets_inv2 {g : Graph} {shape : List (Bytes × Nat)} (a : Args) (gok : GraphOK g) (ns : List Bytes)
+    (s : S) (inv : Inv g a.par s) (ti : TInv g a.par shape s) :
+    WRInv2 g a.par shape (wantTargets g a s ns) := by
+  induction ns generalizing s with
+  | nil => exact ⟨inv, ti⟩
+  | cons n ns ih =>
+    unfold wantTargets
+    split
+    · split
+      · exact ih s inv ti
+      · exact ⟨inv, ti⟩
+    · split
+      · exact ih s inv ti
+      · rename_i t _ _
+        have hw := want_WRInv2 gok s t inv ti
+        split
+        · rename_i s' h; rw [h] at hw; exact ih s' hw.1 hw.2
+        · rename_i r hne
+          cases h : want g s t with
+          | ok u s' => exact absurd h (hne u s')
+          | err m s' => rw [h] at hw; exact hw
+          | bad m => trivial
+    · trivial
+    · trivial
+
+/-- The second phase of `run::build`: its trace satisfies the specification, whatever happens. -/
+theorem phase2_tinv {E : Type} {g : Graph} (gok : GraphOK g) (a : Args) (c : Choices E) (s2 : S) (e : E)
+    (perms : List (List Nat)) (fin : List (Nat × Term)) (n0 : Nat) (inv : Inv g a.par s2)
+    (ti : TInv g a.par (shapeOf a) s2) :
+    TInv g a.par (shapeOf a) (phase2 g a c s2 e perms fin n0).1 := by
+  unfold phase2
+  have hw : WRInv2 g a.par (shapeOf a) (if !a.targets.isEmpty then wantTargets g a s2 a.targets
+      else if !a.defaults.isEmpty then wantAll g s2 a.defaults
+      else wantAll g s2 ((List.range g.nFiles).filter (· ≠ a.manifest))) := by
+    split
+    · exact wantTargets_inv2 a gok _ _ inv ti
+    · split
+      · exact wantAll_inv2 gok _ _ inv ti
+      · exact wantAll_inv2 gok _ _ inv ti
+  simp only []
+  generalize (if !a.targets.isEmpty then wantTargets g a s2 a.targets
+      else if !a.defaults.isEmpty then wantAll g s2 a.defaults
+      else wantAll g s2 ((List.range g.nFiles).filter (· ≠ a.manifest))) = w at hw ⊢
+  cases w with
+  | ok u s3 =>
+    simp only []
+    have := runLoop_tinv c (runFuel g) s3 e perms fin hw.1 hw.2
+    split <;> exact this
+  | err m s3 => exact hw.2
+  | bad m => exact ti
+
+/-- **Every trace of `run::build`** (up to a reload) satisfies the trace specification: for every
+    graph whose producers are builds, every argument vector, every behaviour of the environment
+    and every outcome. -/
+theorem build_tinv {E : Type} {g : Graph} (gok : GraphOK g) (a : Args) (c : Choices E) (e : E) :
+    TInv g a.par (shapeOf a) (build g a c e).1 := by
+  unfold build
+  simp only []
+  have hw := want_WRInv2 gok (fresh a) a.manifest (fresh_inv g a) (fresh_tinv g a)
+  cases hwant : want g (fresh a) a.manifest with
+  | ok u s1 =>
+    rw [hwant] at hw
+    simp only []
+    have t1 := runLoop_tinv c (runFuel g) s1 e c.perms c.finishes hw.1 hw.2
+    cases hr : (runLoop g a.par c (runFuel g) s1 e c.perms c.finishes).result with
+    | ok b =>
+      cases b with
+      | true =>
+        simp only []
+        split
+        · exact t1
+        · exact phase2_tinv gok a c _ _ _ _ 0 (runLoop_inv c _ _ _ _ _ hw.1 hr) t1
+      | false => exact t1
+    | _ => exact t1
+  | err m s1 => rw [hwant] at hw; exact hw.2
+  | bad m => exact fresh_tinv g a
+
+theorem buildReloaded_tinv {E : Type} {g : Graph} (gok : GraphOK g) (a : Args) (c : Choices E) (e : E)
+    (n0 : Nat) : TInv g a.par (shapeOf a) (buildReloaded g a c e n0).1 :=
+  phase2_tinv gok a c _ _ _ _ n0 (fresh_inv g a) (fresh_tinv g a)
+
 end N2V.Run
